@@ -363,12 +363,23 @@ def gen_case(rng, tier, odd=False):
         # identical layouts on both sides (large common blocks)
         dst = dict(src)
         rd = dict(rs, base=DST_BASE)
+        lay = src["layout"]
+        if "strided" in lay:
+            # same type, different run-time descriptor: dynamic offset / the largest dynamic stride get other values
+            if lay["offset"] is None:
+                rd["offset"] = rs["offset"] + rng.choice([0, 1, 4])
+            dyn = [d for d, x in enumerate(lay["strided"]) if x is None]
+            if dyn:
+                top = max(range(rank), key=lambda d: rs["strides"][d])
+                if top in dyn:
+                    rd["strides"] = list(rs["strides"])
+                    rd["strides"][top] = rs["strides"][top] + rng.choice([0, 1, 2, 5])
     return {"kind": "copy", "src": src, "dst": dst, "rs": rs, "rd": rd}
 
 
 def gen_special(rng):
     """hand-shaped families: upstream filecheck inputs, equal steps with unit bounds, single-element LCB."""
-    fam = rng.randrange(10)
+    fam = rng.randrange(12)
     bits = rng.choice(WIDTHS)
     el = el_bytes(bits)
 
@@ -445,6 +456,37 @@ def gen_special(rng):
         return {"kind": "copy", "src": ty([n] * k, {"tsl": {"ts": ts_s, "offset": 0}}),
                 "dst": ty([n] * k, {"tsl": {"ts": ts_d, "offset": 0}}),
                 "rs": rt(SRC_BASE, [n] * k), "rd": rt(DST_BASE, [n] * k)}
+    if fam in (10, 11):
+        # the SAME memref type on both sides, but different run-time descriptors: everything that is dynamic in the type
+        # (strides `?`, offset `?`, extents `?`) is a per-memref run-time value (two subviews of different parents).
+        # Static inner dimensions keep the copy away from the single 1-D burst.
+        k_in = rng.choice([1, 1, 2])                      # static inner dims, row-major (optionally padded)
+        k_out = rng.choice([1, 1, 2])                     # outer dims with dynamic strides
+        inner = [rng.choice([2, 3, 4]) for _ in range(k_in)]
+        outer = [rng.choice([1, 2, 3, 4]) for _ in range(k_out)]
+        in_st, cur = [], rng.choice([1, 1, 2])
+        for n in reversed(inner):
+            in_st.insert(0, cur)
+            cur *= n * rng.choice([1, 1, 2])
+
+        def outer_strides():
+            st, c = [], cur * rng.choice([1, 2, 3]) + rng.choice([0, 0, 1, 3])
+            for n in reversed(outer):
+                st.insert(0, c)
+                c = c * n * rng.choice([1, 2]) + rng.choice([0, 0, 2])
+            return st
+        so, do = outer_strides(), outer_strides()
+        if fam == 11 and so == do:
+            do = [x + 1 + i for i, x in enumerate(do)]    # make sure they differ (still above the inner block)
+            do = sorted(do, reverse=True) if k_out > 1 and do[0] < do[1] * outer[1] else do
+        dyn_shape = rng.random() < 0.5
+        shape = [None if dyn_shape else n for n in outer] + inner
+        dyn_off = rng.random() < 0.4
+        lay = {"strided": [None] * k_out + in_st, "offset": None if dyn_off else 0}
+        rshape = outer + inner
+        return {"kind": "copy", "src": ty(shape, lay), "dst": ty(shape, lay),
+                "rs": rt(SRC_BASE, rshape, so + in_st, rng.choice([0, 3, 8]) if dyn_off else 0),
+                "rd": rt(DST_BASE, rshape, do + in_st, rng.choice([0, 5]) if dyn_off else 0)}
     # fam 7: tiled dynamic block layout  [?, t] -> (?, t), [?, t] -> (?, 1)  against the default layout
     t = rng.choice([2, 4])
     a, b = t * rng.choice([1, 2, 3]), t * rng.choice([1, 2])
@@ -528,7 +570,7 @@ class C05(Prop):
     ]
     rule = ("random layout pairs {default, strided(+gaps, offset, dynamic strides/offset), TSL depth<=3} x rank<=3(4), "
             "static and dynamic extents, widths i1..i64 incl. sub-byte and odd ones (bytes = ceil(bits/8) from the harness table), plus hand-shaped families (upstream inputs, unit bounds with equal "
-            "steps, single-element LCB, dynamic block layouts); non-trivial = more than one DMA burst is issued")
+            "steps, single-element LCB, dynamic block layouts, same strided type on both sides with different run-time strides/offsets); non-trivial = more than one DMA burst is issued")
 
     # -- generators
     def cases(self, rng, tier):
